@@ -1,10 +1,156 @@
 /-
 Property C10 — eliminating Dirichlet dofs is algebraically exact for any index set.
 Property theorems only (helper lemmas live in Proofs/).
+
+All statements hold for every size `m × n`, every index list in every order, every matrix,
+right-hand side and value list over an arbitrary commutative ring (field where a division is
+needed); none is a bounded enumeration.  `examples` instantiate the hypotheses on the D5
+witness `n = 5, idx = [3,1], vals = [30,10]`.
 -/
 import Pyiga.Proofs.Restrict
 import Pyiga.Proofs.Slice
 
 namespace Pyiga.Props.C10
+open Pyiga.Restrict
+
+section ring
+variable {α : Type} [CommRing α]
+
+/-! ## RestrictedLinearSystem -/
+
+/-- **The constructor succeeds on every valid input**: indices pairwise distinct (in any order)
+and in `[0,n)`, at least as many values as indices, `b` of length `m` (or a scalar), and either
+`elim_rows ⊆ [0,m)` given or the matrix square.  It then holds the selection rows
+`R_free = I[free]`, `R_elim = I[elim]`, the argsort-permuted values, `A_r = R_v A R_fᵀ` and
+`b_r = R_v (b − A R_eᵀ values)`. -/
+theorem build_ok (m n : Nat) (A : List (List α)) (b : ScalarOr α) (isArr : Bool) (idx : List Nat)
+    (vals : List α) (er : Option (List Nat)) (hn : ∀ i ∈ idx, i < n) (hnd : idx.Nodup)
+    (hl : idx.length ≤ vals.length) (hb : (b.toList m).length = m)
+    (her : ∀ r, er = some r → ∀ i ∈ r, i < m) (hsq : er = none → n = m) :
+    Sys.build m n A b isArr idx (.array vals) er = .ok
+        { m := m, n := n, rfree := free n idx, relim := elim n idx,
+          rfreeV := free m (er.getD idx), relimV := elim m (er.getD idx), values := sortedVals idx vals,
+          A := selectMatrix (free m (er.getD idx)) (free n idx) A,
+          b := gather (free m (er.getD idx))
+            (vsub (b.toList m) (matVec n A (scatter n (elim n idx) (sortedVals idx vals)))) } :=
+  build_ok_core m n A b isArr idx vals er hn hnd hl hb her hsq
+
+/-- ★ **`complete_spec`** (array values, with or without `elim_rows`, scalar or array `b`).
+Whenever the constructor succeeds on an `m × n` matrix `A` — the indices may come in *any*
+order — and `u_f` solves the restricted system `A_r u_f = b_r`, the completed vector
+`u = complete u_f` has length `n`, takes the prescribed value at every constrained dof,
+`u[idx[k]] = vals[k]`, and satisfies every non-eliminated equation of the original system,
+`(A u)_r = b_r` for all rows `r` not in `elim_rows` (not in `idx` when `elim_rows` is absent).
+No sortedness hypothesis: distinctness of the indices follows from the success of the
+constructor. -/
+theorem complete_spec (m n : Nat) (A : List (List α)) (hA : A.length = m) (b : ScalarOr α)
+    (isArr : Bool) (idx : List Nat) (vals : List α) (er : Option (List Nat)) (S : Sys α)
+    (hS : Sys.build m n A b isArr idx (.array vals) er = .ok S)
+    (uf : List α) (huf : uf.length = S.rfree.length) (hsolve : matVec S.rfree.length S.A uf = S.b) :
+    (S.complete uf).length = n ∧
+    (∀ k (hk : k < idx.length), (S.complete uf).getD idx[k] 0 = vals.getD k 0) ∧
+    (∀ r, r < m → r ∉ er.getD idx → dotN n (A.getD r []) (S.complete uf) = (b.toList m).getD r 0) := by
+  obtain ⟨hl, hn, hnd, hb, _, _, rfl⟩ := build_inv hS
+  exact complete_core m n A (b.toList m) idx vals (er.getD idx) hn hnd hl hA hb uf huf hsolve
+
+/-- scalar `values` (broadcast over an ndarray of indices) build the same system as the
+constant array of that value. -/
+theorem scalar_values_broadcast (m n : Nat) (A : List (List α)) (b : ScalarOr α) (idx : List Nat)
+    (v : α) (er : Option (List Nat)) :
+    Sys.build m n A b true idx (.scalar v) er =
+      Sys.build m n A b true idx (.array (List.replicate idx.length v)) er :=
+  build_scalar_values m n A b idx v er
+
+/-- ★ `complete_spec` for a scalar value `v`: every constrained dof gets `v`. -/
+theorem complete_spec_scalar (m n : Nat) (A : List (List α)) (hA : A.length = m) (b : ScalarOr α)
+    (idx : List Nat) (v : α) (er : Option (List Nat)) (S : Sys α)
+    (hS : Sys.build m n A b true idx (.scalar v) er = .ok S)
+    (uf : List α) (huf : uf.length = S.rfree.length) (hsolve : matVec S.rfree.length S.A uf = S.b) :
+    (S.complete uf).length = n ∧
+    (∀ i ∈ idx, (S.complete uf).getD i 0 = v) ∧
+    (∀ r, r < m → r ∉ er.getD idx → dotN n (A.getD r []) (S.complete uf) = (b.toList m).getD r 0) := by
+  rw [scalar_values_broadcast] at hS
+  obtain ⟨h1, h2, h3⟩ := complete_spec m n A hA b true idx _ er S hS uf huf hsolve
+  refine ⟨h1, ?_, h3⟩
+  intro i hi
+  obtain ⟨k, hk, rfl⟩ := List.mem_iff_getElem.1 hi
+  rw [h2 k hk, List.getD_replicate _ hk]
+
+/-- ★ `restrict (extend u_f) = u_f` for every system the constructor returns. -/
+theorem restrict_extend (m n : Nat) (A : List (List α)) (b : ScalarOr α) (isArr : Bool)
+    (idx : List Nat) (vals : List α) (er : Option (List Nat)) (S : Sys α)
+    (hS : Sys.build m n A b isArr idx (.array vals) er = .ok S)
+    (uf : List α) (huf : uf.length = S.rfree.length) : S.restrict (S.extend uf) = uf := by
+  obtain ⟨_, _, _, _, _, _, rfl⟩ := build_inv hS
+  exact gather_scatter (free_nodup n idx) (fun i hi => (mem_free.1 hi).1) uf huf
+
+/-- ★ `extend (restrict u)` is the projection onto the free dofs: entry `j` is `u[j]` when `j`
+is not constrained and `0` when it is. -/
+theorem extend_restrict (m n : Nat) (A : List (List α)) (b : ScalarOr α) (isArr : Bool)
+    (idx : List Nat) (vals : List α) (er : Option (List Nat)) (S : Sys α)
+    (hS : Sys.build m n A b isArr idx (.array vals) er = .ok S) (u : List α) :
+    (S.extend (S.restrict u)).length = n ∧
+    ∀ j, j < n → (S.extend (S.restrict u)).getD j 0 = if j ∈ idx then 0 else u.getD j 0 := by
+  obtain ⟨_, _, _, _, _, _, rfl⟩ := build_inv hS
+  refine ⟨length_scatter _ _ _, fun j hj => ?_⟩
+  show (scatter n (free n idx) (gather (free n idx) u)).getD j 0 = _
+  rw [getD_scatter _ _ _ hj, scatterAt_gather (free_nodup n idx)]
+  by_cases hm : j ∈ idx
+  · rw [if_pos hm, if_neg (fun h => (mem_free.1 h).2 hm)]
+  · rw [if_neg hm, if_pos (mem_free.2 ⟨hj, hm⟩)]
+
+/-- ★ `restrict_matrix B = R_v B R_fᵀ`: entry `(r', c')` is `B[freeV[r']][free[c']]`. -/
+theorem restrict_matrix_spec (S : Sys α) (B : List (List α)) (r c : Nat) (hr : r < S.rfreeV.length)
+    (hc : c < S.rfree.length) :
+    entry (S.restrictMatrix B) r c = entry B S.rfreeV[r] S.rfree[c] :=
+  entry_selectMatrix _ _ B r c hr hc
+
+/-- ★ `complete (restrict u) = u` for every full vector that carries the prescribed values. -/
+theorem complete_restrict (m n : Nat) (A : List (List α)) (b : ScalarOr α) (isArr : Bool)
+    (idx : List Nat) (vals : List α) (er : Option (List Nat)) (S : Sys α)
+    (hS : Sys.build m n A b isArr idx (.array vals) er = .ok S) (u : List α) (hu : u.length = n)
+    (hv : ∀ k (hk : k < idx.length), u.getD idx[k] 0 = vals.getD k 0) :
+    S.complete (S.restrict u) = u := by
+  obtain ⟨hl, hn, hnd, _, _, _, rfl⟩ := build_inv hS
+  exact complete_gather hn hnd hl u hu hv
+
+/-- error branch: a repeated index makes `R_elim` shorter than `values`, which the code
+reports as a `ValueError` (shape mismatch in `R_elim.T.dot(values)`) — never a silently wrong
+system. -/
+theorem duplicate_indices_error (m n : Nat) (A : List (List α)) (b : ScalarOr α) (isArr : Bool)
+    (idx : List Nat) (vals : List α) (er : Option (List Nat)) (hn : ∀ i ∈ idx, i < n)
+    (hdup : ¬ idx.Nodup) (hl : idx.length ≤ vals.length) (her : ∀ r, er = some r → ∀ i ∈ r, i < m) :
+    Sys.build m n A b isArr idx (.array vals) er = .error .value :=
+  build_dup_error m n A b isArr idx vals er hn hdup hl her
+
+/-- error branch: an index `≥ n` is an `IndexError`. -/
+theorem out_of_range_error (m n : Nat) (A : List (List α)) (b : ScalarOr α) (isArr : Bool)
+    (idx : List Nat) (vals : List α) (er : Option (List Nat)) (i : Nat) (hi : i ∈ idx) (hin : n ≤ i) :
+    Sys.build m n A b isArr idx (.array vals) er = .error .index :=
+  build_oor_error m n A b isArr idx vals er i hi hin
+
+end ring
+
+/-! ### non-vacuity: the D5 witness `idx = [3,1]`, `vals = [30,10]` on a 5 × 5 integer system -/
+
+def exA : List (List Int) :=
+  [[10,1,2,3,4],[5,16,7,8,9],[10,11,22,13,14],[15,16,17,28,19],[20,21,22,23,34]]
+def exB : List Int := [0,1,2,3,4]
+def exSys : Sys Int :=
+  { m := 5, n := 5, rfree := [0,2,4], relim := [1,3], rfreeV := [0,2,4], relimV := [1,3],
+    values := [10,30], A := [[10,2,4],[10,22,14],[20,22,34]], b := [-100,-498,-896] }
+
+example : Sys.build 5 5 exA (.array exB) false [3,1] (.array [30,10]) none = .ok exSys := rfl
+example : exSys.complete [1,2,3] = [1,10,2,30,3] := by decide
+/-- a solvable instance: `b := A·[1,10,2,30,3]`; the restricted system is solved by `[1,2,3]` and the
+hypotheses of `complete_spec` hold. -/
+example : ∃ S, Sys.build 5 5 exA (.array [126,446,596,1106,1066]) true [3,1] (.array [30,10]) none = .ok S ∧
+    matVec S.rfree.length S.A [1,2,3] = S.b ∧ S.complete [1,2,3] = [1,10,2,30,3] := by
+  refine ⟨_, rfl, ?_, ?_⟩ <;> decide
+example : Sys.build 5 5 exA (.array exB) true [3,1,3] (.array [30,10,5]) none = .error .value := rfl
+example : Sys.build 5 5 exA (.array exB) true [3,5] (.array [30,10]) none = .error .index := rfl
+example : Sys.build 3 5 (exA.take 3) (.scalar 2) true [3,1] (.scalar 7) (some [2]) =
+    .ok { m := 3, n := 5, rfree := [0,2,4], relim := [1,3], rfreeV := [0,1], relimV := [2], values := [7,7],
+          A := [[10,2,4],[5,7,9]], b := [-26,-166] } := rfl
 
 end Pyiga.Props.C10
